@@ -437,6 +437,8 @@ func checkC20(c *Ctx) *report.Result {
 
 	// ---- P-wire
 	c.checkAudioWiring(r, leftPath, rightPath)
+	r.Rule("P-step", "the audio unit is stepped once per machine cycle by the frame loop whatever the CPU is doing, and its step clocks the per-clock routine exactly four times (L2, L4 of C26 re-stated)")
+	adopt(r, c.sibling("C26"), map[string]string{"L2": "P-step", "L4": "P-step"}, "an audio step skipped in some machine state (CPU stopped, sound off) loses the samples of those cycles")
 	return r
 }
 
